@@ -14,7 +14,7 @@ import z3
 
 from symx import core
 from symx.containers import SymMem
-from symx.core import SymInt, T, W
+from symx.core import SymBool, SymInt, T, W
 from spec import isa
 
 PRE_BYTES = (0x21, 0x22, 0x23, 0x24, 0x25, 0x26, 0x27, 0x30, 0x31, 0x32, 0x33, 0x34, 0x35, 0x36, 0x37)
@@ -413,6 +413,9 @@ HISTORY = [
     # the power-state flag is neither a register, a flag nor memory: an earlier HALT that left it set
     # must not change what an instruction does to registers, flags and memory
     ("HALT executed before (power-state flag left set)", [0xDE], None, "keep-halted"),
+    # a prefix byte that cannot be fused (stacked prefixes): rejected or executed as a dangling prefix, it must
+    # leave nothing behind that changes the addressing of the next instruction
+    ("two stacked PRE bytes executed before (dangling prefix)", [0x32, 0x30, 0x08, 0x10], None),
 ]
 
 
@@ -672,3 +675,113 @@ def unit_hist_concrete(unit):
                 proved=sum(o.status == "proved" for o in obs), failed=[o.as_dict() for o in obs if o.status == "failed"][:6],
                 nfailed=sum(o.status == "failed" for o in obs), unknown=0, undecided_notes=[], stats=dict(paths=0, queries=0, solver_s=0.0),
                 by_backend={"enumeration": sum(o.status == "proved" for o in obs)}, wall_s=round(time.time() - t0, 2), bounded=True)
+
+
+# --------------------------------------------------------------------------- C07: the snapshot stepper
+STEP_CASES = [
+    # (text, bytes, concrete pointer registers) - operands are direct addresses so that the image keys stay concrete
+    ("MV A,(20)", [0x80, 0x20], {}),
+    ("MV (20),A", [0xA0, 0x20], {}),
+    ("MV A,[020000]", [0x88, 0x00, 0x00, 0x02], {}),
+    ("MV [020000],A", [0xA8, 0x00, 0x00, 0x02], {}),
+    ("PUSHU A", [0x2E], {"U": 0x30010}),
+    ("POPU A", [0x3E], {"U": 0x3000F}),
+    ("CALL 1234", [0x04, 0x34, 0x12], {"S": 0x40010}),
+    ("RET", [0x06], {"S": 0x4000E}),
+    ("ADD (20),A", [0x43, 0x20], {}),
+]
+
+
+def unit_stepper(unit):
+    """Contract of CPUStepper.step / CPU.step_snapshot (sc62015/pysc62015/stepper.py): the result (registers,
+    changed registers, memory image, write log, name, length) is the effect of Emulator.execute_instruction on
+    a fresh Emulator loaded with the same registers and memory image - whatever was stepped before in this
+    process.  Register values and the data bytes of the image are symbolic; the instruction under test is
+    stepped fresh, then again after every history case (each of which writes or reads the same cells) stepped
+    through new and reused stepper objects and through CPU.step_snapshot."""
+    from symx import env
+    env.setup(extra=["sc62015.pysc62015.stepper", "sc62015.pysc62015.cpu"])
+    EMU, OPC, asm_str = _mods()
+    from sc62015.pysc62015 import stepper as ST
+    from sc62015.pysc62015 import cpu as CPUM
+    RN = EMU.RegisterName
+    text, code, fixed = STEP_CASES[unit["case"]]
+    default = unit.get("default", 0)
+    addr = 0x1000
+    t0 = time.time()
+    run = core.Run(max_paths=4000, wall_s=400)
+
+    def body(eng):
+        vals = {r: (fixed[r] if r in fixed else eng.fresh(r, REG_BITS[r])) for r in REGS}
+        data_cells = {0x100020: eng.fresh("m_imem20", 8), 0x20000: eng.fresh("m_ext", 8), 0x3000F: eng.fresh("m_u", 8),
+                      0x4000E: eng.fresh("m_s0", 8), 0x4000F: eng.fresh("m_s1", 8)}
+        if unit.get("sparse"):
+            data_cells = {}
+        image = {addr + i: b for i, b in enumerate(code)}
+        image.update(data_cells)
+
+        def snap():
+            return ST.CPURegistersSnapshot(pc=addr, ba=vals["BA"], i=vals["I"], x=vals["X"], y=vals["Y"], u=vals["U"], s=vals["S"], f=vals["F"])
+
+        # reference: a fresh Emulator over a private copy of the image
+        mem = dict(image)
+        emu = EMU.Emulator(EMU.Memory(lambda a: mem.get(a, default), lambda a, v: mem.__setitem__(a, v & 0xFF)), reset_on_init=False)
+        snap().apply_to(emu.regs)
+        ev = emu.execute_instruction(addr)
+        ref_regs = {r: emu.regs.get(RN[r]) for r in REGS + ("PC",)}
+
+        def compare(tag, res):
+            P = lambda n, c, d=None: eng.prove(f"stepper:{tag}:{n}", core._b(c), detail=d)
+            got = dict(BA=res.registers.ba, I=res.registers.i, X=res.registers.x, Y=res.registers.y, U=res.registers.u, S=res.registers.s,
+                       F=res.registers.f, PC=res.registers.pc)
+            for r in REGS + ("PC",):
+                P(f"reg:{r}", SymBool(T(got[r]) == T(ref_regs[r])), f"{text}: register {r} of the step result vs a fresh Emulator")
+            P("image-keys", set(res.memory_image) == set(mem), f"{sorted(set(res.memory_image) ^ set(mem))[:6]}")
+            for a_ in sorted(set(res.memory_image) & set(mem)):
+                P("image-cell", SymBool(T(res.memory_image[a_]) == T(mem[a_])), f"{text}: cell {a_:#x} of the resulting image vs a fresh Emulator")
+            P("name-and-length", res.instruction_name == ev.instruction.name() and res.instruction_length == ev.instruction.length())
+            wr = {}
+            for w in res.memory_writes:
+                wr[w.address] = w.value
+            P("writes-are-the-changed-cells", all(a_ in mem for a_ in wr) and
+              all(bool(SymBool(T(wr[a_]) == T(mem[a_]))) for a_ in wr), "the write log names cells of the final image with their final values")
+
+        one = ST.CPUStepper(default_memory_value=default)
+        compare("fresh", one.step(snap(), image))
+        # history: every case (with other register values) through a new stepper, the reused stepper and CPU.step_snapshot
+        for hi, (htext, hcode, hfixed) in enumerate(STEP_CASES):
+            himage = {addr + i: b for i, b in enumerate(hcode)}
+            hs = ST.CPURegistersSnapshot(pc=addr, ba=0x7755, i=3, x=0x20010, y=0x20020, u=hfixed.get("U", 0x30010), s=hfixed.get("S", 0x40010), f=1)
+            stp = (one, ST.CPUStepper(default_memory_value=default))[hi % 2]
+            try:
+                if hi % 3 == 2:
+                    CPUM.CPU(EMU.Memory(lambda a: 0, lambda a, v: None), reset_on_init=False).step_snapshot(hs, himage, default_memory_value=default)
+                else:
+                    stp.step(hs, himage)
+            except core.EngineSignal:
+                raise
+            except BaseException:   # noqa: BLE001 - a history step may end any way it likes
+                pass
+        compare("after-history", one.step(snap(), image))
+        compare("after-history:new-stepper", ST.CPUStepper(default_memory_value=default).step(snap(), image))
+        P0 = lambda n, c, d=None: eng.prove(n, core._b(c), detail=d)
+        P0("stepper:caller-image-untouched", all(k in image for k in image) and len(image) == len(code) + len(data_cells) and
+           all(image[addr + i] == b for i, b in enumerate(code)), "step() must not modify the caller's memory image")
+        return PathOutcome("checked", text=text)
+
+    status, err = "ok", None
+    try:
+        core.explore(body, run=run)
+    except core.Undecided as e:
+        status, err = "undecided", str(e)
+    except core.EngineError as e:
+        status, err = "engine-error", str(e)
+    obs = run.obligations
+    by = {}
+    for o in obs:
+        if o.status == "proved":
+            by[o.backend] = by.get(o.backend, 0) + 1
+    return dict(unit=unit, status=status, error=err, kinds={}, obligations=len(obs), proved=sum(o.status == "proved" for o in obs),
+                failed=[o.as_dict() for o in obs if o.status == "failed"][:12], nfailed=sum(o.status == "failed" for o in obs),
+                unknown=sum(o.status == "unknown" for o in obs), undecided_notes=run.undecided[:5], stats=run.stats.as_dict(), by_backend=by,
+                wall_s=round(time.time() - t0, 2))
